@@ -7,7 +7,7 @@ import contextlib
 from kernel.type import Type, TVar, TFun, BoolType, TypeMatchException
 from kernel.term import Term, Var, TypeCheckException
 from kernel.thm import Thm, primitive_deriv, InvalidDerivationException
-from kernel.proof import Proof, ProofStateException
+from kernel.proof import Proof, ItemID, ProofStateException
 from kernel import extension
 from kernel.report import ExtensionReport
 
@@ -303,6 +303,17 @@ class Theory:
         else:
             raise TypeError
 
+    def _check_subproof(self, prf, seq, rpt, no_gaps, compute_only, check_level):
+        """Check the items of the subproof of seq. The id of each item must
+        be its position: cited ids are resolved by position (find_item),
+        while can_depend_on compares ids.
+
+        """
+        for i, s in enumerate(seq.subproof.items):
+            if s.id != ItemID(seq.id.id + (i,)):
+                raise CheckProofException("id %s does not match position in proof" % s.id)
+            self._check_proof_item(prf, s, rpt, no_gaps, compute_only, check_level)
+
     def _check_proof_item(self, prf, seq, rpt, no_gaps, compute_only, check_level):
         """Check a single proof item.
 
@@ -332,8 +343,7 @@ class Theory:
             # In compute_only mode, skip when a theorem exists. However,
             # subproofs still need to be checked.
             if seq.rule == "subproof":
-                for s in seq.subproof.items:
-                    self._check_proof_item(prf, s, rpt, no_gaps, compute_only, check_level)
+                self._check_subproof(prf, seq, rpt, no_gaps, compute_only, check_level)
             return None
 
         if seq.rule == "theorem":
@@ -349,8 +359,7 @@ class Theory:
             nm, T = seq.args
             res_th = Thm.mk_VAR(Var(nm, T))
         elif seq.rule == "subproof":
-            for s in seq.subproof.items:
-                self._check_proof_item(prf, s, rpt, no_gaps, compute_only, check_level)
+            self._check_subproof(prf, seq, rpt, no_gaps, compute_only, check_level)
             res_th = seq.subproof.items[-1].th
         else:
             # Otherwise, apply one of the proof methods. First, we
@@ -398,8 +407,7 @@ class Theory:
                     seq.subproof = macro.expand(seq.id, seq.args, list(zip(seq.prevs, prev_ths)))
                     if rpt is not None:
                         rpt.expand_macro(seq.rule)
-                    for s in seq.subproof.items:
-                        self._check_proof_item(prf, s, rpt, no_gaps, compute_only, check_level)
+                    self._check_subproof(prf, seq, rpt, no_gaps, compute_only, check_level)
                     res_th = seq.subproof.items[-1].th
                     seq.subproof = None
             else:
@@ -430,7 +438,9 @@ class Theory:
         
         """
         assert isinstance(prf, Proof), "check_proof"
-        for seq in prf.items:
+        for i, seq in enumerate(prf.items):
+            if seq.id != ItemID(i):
+                raise CheckProofException("id %s does not match position in proof" % seq.id)
             self._check_proof_item(prf, seq, rpt, no_gaps, compute_only, check_level)
 
         return prf.items[-1].th
